@@ -581,6 +581,9 @@ func (s *Session) handle(line string) error {
 		s.ehloN++
 		caps := cfg.Caps(s.ehloN, s.tlsOn())
 		s.afterHelo("EHLO", caps)
+		if len(caps) == 0 {
+			return s.reply(rec, 250, cfg.Hostname) // bare greeting line: no extension at all
+		}
 		return s.reply(rec, 250, cfg.Hostname+"\n"+strings.Join(caps, "\n"))
 	case "STARTTLS":
 		needHelo()
